@@ -7,7 +7,7 @@ package codec
 // Length prefix L (VarInt): L == 0 is an empty frame the caller skips; L < 0 or L > 2^21-1 is rejected BEFORE the
 // allocation; otherwise exactly L bytes are requested into a buffer of exactly L bytes.
 //@ func readVarIntFrame
-//@   props C02 C05
+//@   props C01 C02 C05
 //@   requires rwf(rd)
 //@   modifies rd.@rpos, payload[*]
 //@   at-call ReadVarIntReturnN as hdr: assert arg0 == rd
@@ -25,7 +25,7 @@ package codec
 // "not compressed" and is accepted iff the remaining body is not larger than the threshold (exactly the threshold is tolerated);
 // C > 0 goes to decompress with exactly C.
 //@ func (*Decoder).readPayload
-//@   props C02 C05
+//@   props C01 C02 C05
 //@   requires rwf(d.rd) && (d.zrd != nil ==> ref(d.zrd) != ref(d.rd))
 //@   ensures [wf] d.rd == old(d.rd) && rwf(d.rd) && (d.zrd != nil ==> ref(d.zrd) != ref(d.rd))
 //@   at-call readVarIntFrame as frame: assert arg0 == d.rd
@@ -45,7 +45,7 @@ package codec
 // Claimed size below the threshold or above the direction cap (2 MiB from clients, 8 MiB from servers) is rejected before any
 // allocation; the buffer is exactly C bytes and filled completely; the stream must end there (one more byte = rejection).
 //@ func (*Decoder).decompress
-//@   props C02 C05
+//@   props C01 C02 C05
 //@   requires claimedUncompressedSize > 0
 //@   requires rwf(d.rd) && (d.zrd != nil ==> ref(d.zrd) != ref(d.rd)) && ref(rd) != ref(d.rd)
 //@   ensures [wf] d.rd == old(d.rd) && rwf(d.rd) && (d.zrd != nil ==> ref(d.zrd) != ref(d.rd))
@@ -106,3 +106,68 @@ package codec
 // Every function below proto/ (packet decoders, the primitive readers and helpers they call) is put under two implicit
 // obligations: an explicit panic carries an error value; a make never asks for more than 2^21 elements.
 //@ sweep-reachable go.minekube.com/gate/pkg/edition/java/proto/packet Decode ; props C05
+
+// ---- C01: what the encoder frames is what the decoder (C02) unframes ------------------------------------------------
+// Compression is on exactly for thresholds >= 0 - the same rule as Decoder.SetCompressionThreshold.
+//@ func (*Encoder).SetCompression
+//@   props C01
+//@   at-store threshold: assert value == threshold
+//@   at-store enabled: assert [on-iff-threshold-nonnegative] value == (threshold >= 0)
+//@   at-call NewWriterLevel as zw: assert threshold >= 0 && arg1 == level
+// Without compression a frame is VarInt(|payload|) then the payload.
+//@ func (*Encoder).writeBuf
+//@   props C01
+//@   at-call writeCompressed as zc: assert e.compression.enabled && arg0 == e && arg1 == payload
+//@   at-call Len as ln: assert !e.compression.enabled && arg0 == payload
+//@   at-call WriteVarIntN as hdr: assert [length-prefix-is-the-payload-length] !e.compression.enabled && arg0 == e.wr && called(ln) && arg1 == res(ln)
+//@   at-call WriteTo as body: assert [then-the-payload] called(hdr) && res(hdr, 1) == nil && arg0 == payload && arg1 == e.wr
+//@   ensures [compression-goes-through-the-envelope] old(e.compression.enabled) ==> called(zc) && !called(hdr)
+// With compression: below the threshold VarInt(|payload|+1), VarInt(0), payload (the decoder's "claim 0 = uncompressed",
+// accepted while the body does not exceed the threshold); from the threshold on VarInt(|data|), VarInt(|payload|) and
+// the deflated payload (the decoder requires claim >= threshold and inflates exactly |payload| bytes).
+//@ func (*Encoder).writeCompressed
+//@   props C01
+//@   at-call Len#1 as ln: assert arg0 == payload
+//@   at-call WriteVarIntN#1 as h1: assert [uncompressed-envelope-length] res(ln) < e.compression.threshold && arg0 == e.wr && arg1 == res(ln) + 1
+//@   at-call WriteVarIntN#2 as zero: assert [claim-zero-means-uncompressed] called(h1) && res(h1, 1) == nil && arg0 == e.wr && arg1 == 0
+//@   at-call WriteTo#1 as raw: assert called(zero) && res(zero, 1) == nil && arg0 == payload && arg1 == e.wr
+//@   at-call WriteVarInt as claim: assert [claim-is-the-uncompressed-size] res(ln) >= e.compression.threshold && arg1 == res(ln)
+//@   at-call Bytes as pl: assert arg0 == payload
+//@   at-call compress as z: assert [deflate-the-whole-payload-after-the-claim] called(claim) && res(claim) == nil && arg0 == e && ref(arg1) == ref(res(pl)) && len(arg1) == len(res(pl)) && arg2 == arg(claim, 0)
+//@   at-call Len#2 as dl
+//@   at-call WriteVarIntN#3 as h2: assert [frame-length-covers-claim-and-data] called(z) && res(z, 1) == nil && arg0 == e.wr && called(dl) && arg1 == res(dl)
+//@   at-call WriteTo#2 as data: assert called(h2) && res(h2, 1) == nil && arg1 == e.wr
+//@   ensures [below-threshold-is-sent-uncompressed] called(ln) && res(ln) < old(e.compression.threshold) ==> called(h1) && !called(claim) && !called(z)
+//@   ensures [from-the-threshold-on-it-is-deflated] called(ln) && res(ln) >= old(e.compression.threshold) ==> called(claim) && !called(h1)
+//@ func (*Encoder).compress
+//@   props C01
+//@   at-call Reset as rs: assert arg0 == e.compression.writer && arg1 == w
+//@   at-call Write as wr: assert called(rs) && ref(arg1) == ref(payload) && len(arg1) == len(payload)
+//@   at-call Close as cl: assert [stream-finished] called(wr) && res(wr, 1) == nil
+//@   ensures [whole-payload-then-close] result.1 == nil ==> called(wr) && called(cl)
+//@ func (*Encoder).Write
+//@   props C01
+//@   at-call NewBuffer as nb: assert ref(arg0) == ref(payload) && len(arg0) == len(payload)
+//@   at-call writeBuf as wb: assert held(e.mu) == wlocked && arg0 == e && arg1 == res(nb)
+
+// Encryption: both directions derive their CFB8 stream from the same secret (key and IV), one as decryptor over the
+// connection's buffered reader, one as encryptor over its buffered writer, and install it as the decoder's / encoder's
+// stream; a bad secret installs nothing.
+//@ func NewDecryptReader
+//@   props C01
+//@   at-call newCFB8FromSecret as mk: assert ref(arg0) == ref(secret) && len(arg0) == len(secret) && arg1
+//@   ensures [decrypting-reader-over-r] err == nil ==> called(mk) && res(mk, 1) == nil && reader != nil
+//@   ensures [bad-secret-is-an-error] called(mk) && res(mk, 1) != nil ==> err != nil && reader == nil
+//@ func NewEncryptWriter
+//@   props C01
+//@   at-call newCFB8FromSecret as mk: assert ref(arg0) == ref(secret) && len(arg0) == len(secret) && !arg1
+//@   ensures [encrypting-writer-over-w] err == nil ==> called(mk) && res(mk, 1) == nil && wr != nil
+//@ func newCFB8FromSecret
+//@   props C01
+//@   at-call NewCipher as blk: assert ref(arg0) == ref(secret) && len(arg0) == len(secret)
+//@   at-call newCFB8 as st: assert [secret-is-key-and-iv] called(blk) && res(blk, 1) == nil && arg0 == res(blk, 0) && ref(arg1) == ref(secret) && len(arg1) == len(secret) && arg2 == decrypt
+//@ func newCFB8
+//@   props C01
+//@   at-call NewCFB8Decrypt as d: assert decrypt && arg0 == c && ref(arg1) == ref(iv) && len(arg1) == len(iv)
+//@   at-call NewCFB8Encrypt as e: assert !decrypt && arg0 == c && ref(arg1) == ref(iv) && len(arg1) == len(iv)
+//@   ensures [direction] decrypt == called(d) && !decrypt == called(e)
